@@ -163,7 +163,8 @@ def sweep_c08():
     for e in elems:
         shapes += ['%s[]' % e, 'List<%s>' % e, 'Map<String,%s>' % e, 'Map<%s,String>' % e]
     shapes += ['List', 'Map', 'List<List<int[]>>', 'Map<String,List<int>>', 'List<Map<String,int>>', 'Map<String,Map<int,String>>', 'List<List<List<int>>>', 'Map<String,List<En[]>>',
-               'List<Map<int,List<int>>>', 'List<CharSequence[]>', 'Map<String,Ifc[]>', 'List<Par>[]', 'Map<String,Map<String,Map<String,int>>>']
+               'List<Map<int,List<int>>>', 'List<CharSequence[]>', 'Map<String,Ifc[]>', 'List<Par>[]', 'Map<String,Map<String,Map<String,int>>>',
+               'Map<String,List<int>>[]', 'List<List<int>>[]', 'Map<int,String>[][]', 'Map<String,List>[]', 'List<Map<String,List<int>>[]>', 'Map<String,Map>[]', 'List<List<Map<int,int>>>[]']
     n, bad = 0, []
     for posn in ('ret', 'arg', 'const', 'field', 'pconst'):
         lines = []
@@ -232,6 +233,19 @@ def sweep_c10():
             want = int(ow and cat != 'void')
             if len(ret) != want:
                 bad.append({'case': [cat, mow, iow], 'what': 'expected %d return-type Errors, got %d' % (want, len(ret))})
+    # methods that repeat an earlier name (or carry codes) are still subject to the oneway rules
+    for iow in (False, True):
+        text = HEADER + ('oneway ' if iow else '') + 'interface I {\n  void send(int a);\n  %sint send(int a, int b);\n  void other() = 1;\n  %sString other(out int[] x) = 1;\n}\n' % (
+            '' if iow else 'oneway ', '' if iow else 'oneway ')
+        fr = run_project(text)
+        ms = fr['valid']['ast']['members']
+        diags = fr['valid']['diags']
+        for m in ms:
+            n += 1
+            if m['ret']['kind'] != 'void':
+                ret = [d for d in diags if d['kind'] == 'Error' and in_range(d, m['ret']['sym']) and 'return type' in d['message']]
+                if len(ret) != 1:
+                    bad.append({'case': ['same-name', m['name'], iow], 'what': 'same-name / same-code oneway method `%s` with a non-void return gets %d return-type Errors' % (m['name'], len(ret))})
     return n, bad
 
 
@@ -239,7 +253,7 @@ def sweep_c10():
 # traversal / lookup / resolution on generated documents
 # ---------------------------------------------------------------------------------------------------------------------------
 NESTED = ['int', 'int[]', 'List<String>', 'Map<String,Foo>', 'List<Foo[]>', 'Map<String,List<Foo>>', 'List<List<Foo>>', 'Map<String,Map<String,Foo[]>>', 'List<Map<String,List<Foo>>>',
-          'Foo[]', 'List<Foo>[]', 'Map<Foo,List<Foo>>']
+          'Foo[]', 'List<Foo>[]', 'Map<Foo,List<Foo>>', 'Map<String,List<Foo>>[]', 'List<List<Foo>>[]', 'Map<Foo,String>[][]']
 
 
 def type_order(t, out):
@@ -281,7 +295,7 @@ def traversal_docs():
     for k, t in enumerate(NESTED):
         ms.append('  %s m%d(in %s a%d, %s);' % (t, k, NESTED[(k + 3) % len(NESTED)], k, NESTED[(k + 5) % len(NESTED)]))
         ms.append('  const %s K%d = 1;' % (t, k))
-    docs['iface.aidl'] = 'package tr.av;\nimport p.q.Foo;\nimport p.q.Bar;\ninterface Walk {\n' + '\n'.join(ms) + '\n}\n'
+    docs['iface.aidl'] = 'package tr.\n    av;\nimport p.q.\n  Foo;\nimport p.q.Bar;\ninterface Walk {\n' + '\n'.join(ms) + '\n  p.\n   q.Foo spanning(in p.q.\n Foo z);\n}\n'
     fs = []
     for k, t in enumerate(NESTED):
         fs.append('  %s f%d;' % (t, k))
@@ -426,13 +440,15 @@ def render(template, gap):
 
 MEMBER_TEMPLATES = {
     # kind: (container, template)   roles: first = first token after annotations, last = last token before ';', semi, n = name, ann = last annotation token
-    'method_full': ('interface', '«ann:@A»§«first:oneway»§List§<§String§>§«n:foo»§(§in§int§a§)§=§«code:12»«last:»§«semi:;»'),
+    'method_full': ('interface', '«ann:@A»§«first:oneway»§«lt:List»§<§«lts:String»§«ltend:>»§«n:foo»§(§in§«at:int»§a§)§=§«code:12»«last:»§«semi:;»'),
     'method_plain': ('interface', '«first:void»§«n:foo»§(§«last:)»§«semi:;»'),
     'method_annot': ('interface', '«ann:@A»§«first:void»§«n:foo»§(§«last:)»§«semi:;»'),
     'method_badcode': ('interface', '«first:void»§«n:foo»§(§)§=§«code:99999999999»«last:»§«semi:;»'),
     'const': ('interface', '«ann:@A»§«first:const»§int§«n:KK»§=§«last:1»§«semi:;»'),
     'field': ('parcelable', '«ann:@A»§«first:int»§«n:ff»«last:»§«semi:;»'),
     'field_value': ('parcelable', '«first:String»§«n:ff»§=§«last:"s"»§«semi:;»'),
+    'field_map': ('parcelable', '«first:»«mt:Map»§<§«mk:String»§,§«arr:int»§[§«arrlast:]»§«mtend:>»§«n:ff»«last:»§«semi:;»'),
+    'field_custom': ('parcelable', '«first:»«ct:a.b.Cc»§«n:ff»«last:»§«semi:;»'),
     'enum_element': ('enum', '«first:»«n:EL»§=§«last:3»'),
 }
 
@@ -496,6 +512,23 @@ def sweep_c04():
             else:
                 chk('member', 'full_range', m['full'], roles['first'][0], ends)
             if kind == 'method_full':
+                rt = m['ret']
+                chk('type', 'symbol_range', rt['sym'], roles['lt'][0], roles['lt'][1])
+                chk('type', 'full_range', rt['full'], roles['lt'][0], roles['ltend'][1])
+                chk('type', 'symbol_range', rt['generic'][0]['sym'], roles['lts'][0], roles['lts'][1])
+                chk('type', 'symbol_range', m['args'][0]['type']['sym'], roles['at'][0], roles['at'][1])
+            if kind == 'field_map':
+                ft = m['type']
+                chk('type', 'symbol_range', ft['sym'], roles['mt'][0], roles['mt'][1])
+                chk('type', 'full_range', ft['full'], roles['mt'][0], roles['mtend'][1])
+                chk('type', 'symbol_range', ft['generic'][0]['sym'], roles['mk'][0], roles['mk'][1])
+                chk('type', 'symbol_range', ft['generic'][1]['sym'], roles['arr'][0], roles['arr'][1])
+                chk('type', 'full_range', ft['generic'][1]['full'], roles['arr'][0], roles['arrlast'][1])
+                chk('type', 'symbol_range', ft['generic'][1]['generic'][0]['sym'], roles['arr'][0], roles['arr'][1])
+            if kind == 'field_custom':
+                chk('type', 'symbol_range', m['type']['sym'], roles['ct'][0], roles['ct'][1])
+                chk('type', 'full_range', m['type']['full'], roles['ct'][0], roles['ct'][1])
+            if kind == 'method_full':
                 chk('method', 'oneway_range', m['oneway_range'], roles['first'][0], roles['first'][1])
                 if m['code'] != 12:
                     bad.append({'kind': kind, 'what': 'transact code %s' % m['code']})
@@ -524,4 +557,99 @@ def sweep_c04():
                 wf(m['code_range'], 'method.transact_code_range'); wf(m['oneway_range'], 'method.oneway_range')
             for d in fr['diags']:
                 wf(d['range'], 'diagnostic')
+    return n, bad
+
+
+def sweep_c09():
+    """all method sequences of length <= 4 over 2 names x {no code, 2 codes}, constants interleaved; reference written from the statement."""
+    import itertools
+    alphabet = [(nm, code) for nm in ('aa', 'bb') for code in (None, 1, 2)]
+    seqs = []
+    for L in range(1, 5):
+        seqs += list(itertools.product(alphabet, repeat=L))
+    files, metas = {}, {}
+    for k, seq in enumerate(seqs):
+        lines = []
+        for j, (nm, code) in enumerate(seq):
+            lines.append('  void %s()%s;' % (nm, '' if code is None else ' = %d' % code))
+            if j == 0:
+                lines.append('  const int K = 1;')
+        files['q%04d.aidl' % k] = 'package p;\ninterface I {\n' + '\n'.join(lines) + '\n}\n'
+        metas['q%04d.aidl' % k] = seq
+    r = replay.project(files)
+    bad = []
+    if 'files' not in r:
+        return len(seqs), [{'what': 'validation did not return normally: %s' % str(r)[:200]}]
+    for fid, seq in metas.items():
+        fr = r['files'][fid]['valid']
+        ms = [m for m in fr['ast']['members'] if m['tag'] == 'method']
+        diags = [d for d in fr['diags'] if 'method' in d['message'].lower() and d['kind'] == 'Error' and ('Duplicated' in d['message'] or 'Mixed' in d['message'])]
+        want = []
+        names, ids, fw, fwo = {}, {}, None, None
+        for j, (nm, code) in enumerate(seq):
+            m = ms[j]
+            if nm in names:
+                want.append(('dupname', tuple(m['sym'][:2]), tuple(ms[names[nm]]['sym'][:2])))
+                continue
+            names[nm] = j
+            if (code is not None and fw is None and fwo is not None) or (code is None and fwo is None and fw is not None):
+                want.append(('mixed', tuple(m['code_range'][:2]), None))
+            if code is not None:
+                if fw is None:
+                    fw = j
+                if code in ids:
+                    want.append(('dupid', tuple(m['code_range'][:2]), tuple(ms[ids[code]]['code_range'][:2])))
+                else:
+                    ids[code] = j
+            elif fwo is None:
+                fwo = j
+        got = []
+        for d in diags:
+            kind = 'dupname' if 'method name' in d['message'] else 'mixed' if 'Mixed' in d['message'] else 'dupid'
+            got.append((kind, tuple(d['range'][:2]), tuple(d['related'][0][:2]) if d['related'] and kind != 'mixed' else None))
+        if sorted(got) != sorted(want):
+            bad.append({'sequence': seq, 'got': got, 'want': want})
+    return len(seqs), bad
+
+
+def sweep_doc_attachment():
+    """every documentable construct x {annotated, plain} x {doc comment, none, doc comment of the previous member}: the `doc` field."""
+    n, bad = 0, []
+    for ann in ('', '@Ann ', '@Ann(k=1)\n  ', '@A @B '):
+        for sep in (' ', '\n  ', '\r\n  ', ' /* c */ '):
+            def d(text):
+                return '/** %s */%s' % (text, sep)
+            files = {
+                'i.aidl': 'package p;\n%s%sinterface I {\n  %s%sconst int K = 1;\n  %s%svoid m(%sin %sint a, int b);\n  void plain();\n}\n' % (d('item doc'), ann, d('const doc'), ann, d('method doc'), ann, d('arg doc'), ann),
+                'p.aidl': 'package p;\n%s%sparcelable P {\n  %s%sint f;\n  %s%sconst int C = 2;\n  int plain;\n}\n' % (d('item doc'), ann, d('field doc'), ann, d('pconst doc'), ann),
+                'e.aidl': 'package p;\n%s%senum E {\n  %s%sA = 1,\n  B\n}\n' % (d('item doc'), ann, d('elem doc'), ann),
+            }
+            r = replay.project(files)
+            if r.get('panic') or 'crash' in r:
+                bad.append({'what': 'replay failed', 'detail': str(r)[:200]}); continue
+
+            def expect(node, got, want, fid):
+                nonlocal n
+                n += 1
+                if got != want:
+                    bad.append({'file': fid, 'annotations': ann, 'separator': repr(sep), 'node': node, 'what': 'doc of %s is %r, expected %r' % (node, got, want)})
+            for fid, fr in r['files'].items():
+                a = fr['valid']['ast']
+                if a is None:
+                    bad.append({'file': fid, 'what': 'did not parse: %s' % [x['message'] for x in fr['parse']['diags']][:1], 'annotations': ann}); continue
+                expect('item', a['item']['doc'], 'item doc', fid)
+                ms = {m['name']: m for m in a['members']}
+                if fid == 'i.aidl':
+                    expect('const', ms['K']['doc'], 'const doc', fid)
+                    expect('method', ms['m']['doc'], 'method doc', fid)
+                    expect('arg', ms['m']['args'][0]['doc'], 'arg doc', fid)
+                    expect('arg without doc', ms['m']['args'][1]['doc'], None, fid)
+                    expect('method without doc', ms['plain']['doc'], None, fid)
+                elif fid == 'p.aidl':
+                    expect('field', ms['f']['doc'], 'field doc', fid)
+                    expect('const', ms['C']['doc'], 'pconst doc', fid)
+                    expect('field without doc', ms['plain']['doc'], None, fid)
+                else:
+                    expect('enum_element', ms['A']['doc'], 'elem doc', fid)
+                    expect('enum_element without doc', ms['B']['doc'], None, fid)
     return n, bad
